@@ -114,6 +114,12 @@ func (k *skel) stmt(st ast.Stmt) []string {
 			return []string{".runlock"}
 		case "m.Lock", "m.Unlock":
 			shapeErr(k.gen, "exporter takes the write lock: %s", k.f.src(x))
+		case "panic":
+			// leaves the function like a return does (deferred calls run, nothing else)
+			if k.deferred {
+				return []string{".runlock", ".ret"}
+			}
+			return []string{".ret"}
 		}
 		if k.relocks(k.f, x, "m", 0) {
 			return []string{".relock"}
